@@ -35,6 +35,12 @@ def auth_lines(rng):
             pol, a = s.build()
             form = "record" if name in authcat.RECORD_ONLY else "dict"
             out.append((f"auth {name} uv_required={ruv}", impl.verify_auth(pol, a.as_record() if form == "record" else a.as_dict())))
+    for kind in ("ES256-P256", "EdDSA"):
+        s = authcat.Scn(kind)
+        pol, a = s.build()
+        for tail in ([b"https://staging.example"], [None, 5], [b"", "https://other.example", 1.5]):
+            P_ = impl.AuthPolicy(pol.challenge, pol.rp_id, [s.origin] + tail, pol.pubkey, pol.count, pol.require_uv)
+            out.append((f"auth origin list with {tail!r} after the match {kind}", impl.verify_auth(P_, a.as_dict())))
     # the same assertion again after it was accepted, with one bit of the signed material changed (nothing re-signed): whatever was remembered about the first
     # verification, this is another message
     for kind in ("ES256-P256", "RS256", "EdDSA"):
@@ -83,6 +89,35 @@ def reg_lines(rng):
         except Exception:
             continue
         out.append((f"reg variation {i} {fmt} flags={s.flags:#04x}", impl.verify_reg(regrun.policy_of(pd), reg.as_dict())[:60]))
+    # every format fault of the other formats too (one variant each): the REFUSAL of each is built - message and all - under every environment
+    for fmt in ("apple", "android-key", "android-safetynet", "fido-u2f"):
+        for name, f in regcat.FORMAT_FAULTS.get(fmt, {}).items():
+            s = regsim.RScn(fmt, "ES256-P256", "ES256-P256")
+            try:
+                f(s, random.Random(11))
+                pd, reg = regsim.build(s)
+            except Exception:
+                continue
+            out.append((f"reg {name}/{fmt}", impl.verify_reg(regrun.policy_of(pd), reg.as_dict())[:60]))
+    # unsigned members with values this library version does not know (a transport / attachment of a later specification level), in all three input forms
+    for fmt in ("none", "packed"):
+        for tr in (["usb", "quantum-tunnel"], ["smart-card"], ["hybrid", "cable", ""], []):
+            s = regsim.RScn(fmt, "ES256-P256")
+            pd, reg = regsim.build(s)
+            reg.transports = tr
+            for form in ("dict", "text", "record"):
+                try:
+                    val = reg.as_dict() if form == "dict" else reg.as_text() if form == "text" else reg.as_record()
+                except Exception:
+                    continue
+                out.append((f"reg unknown-transports {tr}/{fmt} {form}", impl.verify_reg(regrun.policy_of(pd), val)[:60]))
+    # a list of expected origins whose entries AFTER the matching one are not even strings (bytes, None, numbers): the match decides, nothing behind it is looked at
+    for fmt in ("none", "packed-self"):
+        s = regsim.RScn(fmt, "ES256-P256")
+        pd, reg = regsim.build(s)
+        for tail in ([b"https://staging.example"], [None, 5], [b"", "https://other.example", 1.5]):
+            P_ = regrun.policy_of(dict(pd, origin=[pd["origin"] if isinstance(pd["origin"], str) else pd["origin"][0]] + tail))
+            out.append((f"reg origin list with {tail!r} after the match/{fmt}", impl.verify_reg(P_, reg.as_dict())[:60]))
     for fmt in ("none", "packed-self", "packed", "tpm"):
         for name, f in regcat.CEREMONY.items():
             s = regsim.RScn(fmt, "ES256-P256")
